@@ -10,6 +10,7 @@ import (
 	"fmt"
 	"go/constant"
 	"go/types"
+	"hash/fnv"
 	"os"
 	"runtime/debug"
 	"sort"
@@ -283,8 +284,37 @@ func corpusWorker(args []string) int {
 	}
 	units := unitsOf(u, closurePaths(u))
 	pf, _ := os.Create(progress)
+	// sharded by PACKAGE (all functions of a package are analysed on one universe, one after the other, the way a
+	// generator run does), and every function is asked once more after all others: the answer must not wear off
+	first := map[int]string{}
+	ask := func(un unit) (out string) {
+		defer func() {
+			if r := recover(); r != nil {
+				out = fmt.Sprint("panic: ", r)
+			}
+		}()
+		r, n := un.p.ResultsOf(un.fn)
+		return fmt.Sprint(n, " ", r.String())
+	}
+	reask := func() {
+		if startAt > 0 {
+			return // a restarted child has not seen the first answers
+		}
+		for i, un := range units {
+			want, ok := first[i]
+			if !ok {
+				continue
+			}
+			c.Trans(1)
+			if got := ask(un); got != want {
+				c.Fail("", Case{Corpus: corpus, Unit: un.id}, "ResultsOf(%s) = %s when asked again after all other functions of the corpus shard, %s the first time", un.id, got, want)
+			}
+		}
+	}
 	for i, un := range units {
-		if i%shards != shard || i < startAt {
+		h := fnv.New32a()
+		h.Write([]byte(un.p.Pkg().Path()))
+		if int(h.Sum32()%uint32(shards)) != shard || i < startAt {
 			continue
 		}
 		// record the unit about to run, and the result so far, so that a fatal crash loses nothing
@@ -292,12 +322,17 @@ func corpusWorker(args []string) int {
 		pf.Truncate(0)
 		fmt.Fprintf(pf, "%d %s\n", i, un.id)
 		judge(c, Case{Corpus: corpus, Unit: un.id}, un, nil)
+		first[i] = ask(un)
 		if i%200 == 0 || true {
 			// results are flushed at the end; on a crash the parent re-runs from i+1 and the
 			// violations found before the crash are re-found by the restarted child only if they
 			// lie after i, so flush a checkpoint file as well
 		}
 	}
+	pf.Seek(0, 0)
+	pf.Truncate(0)
+	fmt.Fprintf(pf, "%d %s\n", len(units), "the second pass over all functions")
+	reask()
 	fmt.Fprintf(pf, "done %d\n", len(units))
 	pf.Close()
 	c.Bound(corpus+"_corpus_units", len(units))
